@@ -28,6 +28,7 @@ struct Node {
 	uint8_t tx_seq = 1;                  // next uplink sequence number
 	uint8_t tab_version = 1;
 	int tab_iter = 0, feat_iter = 0;
+	bool enum_active = false, enum_dirty = false;   // node table read-out in progress / table changed meanwhile
 	uint8_t pkt_capacity = 64;
 	uint8_t cs_state = 0, boost_state = 0;
 	uint64_t last_start_us = 0;          // frames of one node keep their order on the wire
@@ -267,12 +268,19 @@ struct Bus {
 			case MSG_SYS_GET_ERROR: set(MSG_SYS_ERROR, {0x00}); break;
 			case MSG_GET_PKT_CAPACITY: set(MSG_PKT_CAPACITY, {n.pkt_capacity}); break;
 			case MSG_NODETAB_GETALL: {
-				n.tab_iter = 0;
+				n.tab_iter = 0; n.enum_active = true; n.enum_dirty = false;
 				int cnt = 1; for (int c : n.children) if (nodes[(size_t) c].present) cnt++;
 				set(MSG_NODETAB_COUNT, {(uint8_t) cnt});
 				break;
 			}
 			case MSG_NODETAB_GETNEXT: {
+				if (n.enum_dirty) {
+					// the table changed while it was being read: the read-out is void and has to be restarted by the host
+					n.enum_dirty = false; n.enum_active = false;
+					set(MSG_NODETAB_COUNT, {0}); fired["nodetab-restart"]++;
+					break;
+				}
+				if (!n.enum_active) { set(MSG_NODE_NA, {255}); break; }
 				std::vector<int> ent; ent.push_back(-1);
 				for (int c : n.children) if (nodes[(size_t) c].present) ent.push_back(c);
 				if (n.tab_iter < (int) ent.size()) {
@@ -281,6 +289,7 @@ struct Bus {
 					if (e < 0) { v.push_back(0); v.insert(v.end(), n.uid, n.uid + 7); }
 					else { v.push_back(nodes[(size_t) e].addr.back()); v.insert(v.end(), nodes[(size_t) e].uid, nodes[(size_t) e].uid + 7); }
 					set(MSG_NODETAB, v);
+					if (n.tab_iter >= (int) ent.size()) n.enum_active = false;
 				} else set(MSG_NODE_NA, {255});
 				alt(MSG_NODE_NA, {255});
 				break;
@@ -350,7 +359,7 @@ struct Bus {
 			case MSG_CS_POM: set(MSG_CS_POM_ACK, {D(0), D(1), D(2), D(3), D(4), 1}); break;
 			case MSG_CS_RCPLUS: set(MSG_CS_RCPLUS_ACK, {D(0), 0, 0, 0, 0, 0, 0}); break;
 			case MSG_CS_PROG: set(MSG_CS_PROG_STATE, {0, 0, D(1), D(2), D(3)}); break;
-			case MSG_SYS_RESET: for (auto &x : nodes) { x.tx_seq = 1; x.tab_iter = 0; x.feat_iter = 0; } break;
+			case MSG_SYS_RESET: for (auto &x : nodes) { x.tx_seq = 1; x.tab_iter = 0; x.feat_iter = 0; x.enum_active = x.enum_dirty = false; } break;
 			default: break;
 		}
 		return a;
